@@ -55,7 +55,7 @@ PROPS = {
     ),
 }
 PROBES = {'C04': ['ghost_particles_present', 'periodic_domain', 'two_arrays_different_steppers', 'update_nnps_false', 'second_equation_set',
-                  'py_stage_hook', 'py_hook_injects_particles', 'same_stepper_class_different_parameters', 'py_hook_reads_other_array', 'h_grows_during_step', 'empty_array', 'several_steps', 'noncontiguous_times', 't0_nonzero', 'sim_schedule', 'shipped_stepper', 'history_compared']}
+                  'py_stage_hook', 'py_hook_injects_particles', 'same_stepper_class_different_parameters', 'py_hook_reads_other_array', 'h_grows_during_step', 'empty_array', 'sourceless_equation_set', 'several_steps', 'noncontiguous_times', 't0_nonzero', 'sim_schedule', 'shipped_stepper', 'history_compared']}
 
 
 def needs_isolation(sc):
@@ -129,7 +129,8 @@ def _scenario(t, pr, sim_override=None):
     return dict(integrator=pr['integrator'], stepper=pr['stepper'], narr=pr['narr'], dim=dim, arrays=arrays, steps=steps,
                 periodic=int(pr['stepper'] in ('trace', 'trace_same') and t.bool(0.3)), sim=int(t.bool(0.4)) if sim_override is None else sim_override,
                 sched_seed=t.int(0, 1 << 30), threads=t.choice([2, 3, 4]), c=[float(t.int(1, 9)), float(t.int(1, 9))],
-                move=t.choice([0.0, 0.01, 0.03]), grow=t.choice([1.0, 1.0, 1.3, 1.7]), peer=int(t.bool(0.6)))
+                move=t.choice([0.0, 0.01, 0.03]), grow=t.choice([1.0, 1.0, 1.3, 1.7]), peer=int(t.bool(0.6)),
+                nosrc_set=(t.choice([0, 1]) if (pr['integrator'] in NEEDS_TWO_EVALS and t.bool(0.35)) else None))
 
 
 def gen(t, prop, tier):
@@ -213,6 +214,13 @@ def _make_setup(sc):
     if st.startswith('trace'):
         e0 = [D.TAcc(dest=nm, sources=names, c=3.0) for nm in names]
         e1 = [D.TAcc(dest=nm, sources=names, c=5.0) for nm in names]
+        if sc.get('nosrc_set') in (0, 1) and integ_name in NEEDS_TWO_EVALS:
+            # one of the two equation sets holds source-less equations only
+            body = [D.TAccNoSrc(dest=nm, sources=None, c=7.0) for nm in names]
+            if sc['nosrc_set'] == 0:
+                e0 = body
+            else:
+                e1 = body
         eqs = MultiStageEquations([e0, e1]) if integ_name in NEEDS_TWO_EVALS else e0
     else:
         eqs = [D.Noop(dest='f', sources=None)]
@@ -424,6 +432,8 @@ def execute(sc, prop):
         probe('update_nnps_false')
     if any(e[0] == 'acc' and e[1] == 1 for e in r_log):
         probe('second_equation_set')
+    if sc.get('nosrc_set') in (0, 1) and sc['integrator'] in NEEDS_TWO_EVALS and exact:
+        probe('sourceless_equation_set')
     if exact:
         probe('py_stage_hook')
     for pa, ref in zip(arrays, r_arrays):
